@@ -88,7 +88,7 @@ PROPS = {
     "C18": dict(
         module="Anonymongo.Props.C18",
         theorems=["Anonymongo.Cli.C18_exact", "Anonymongo.Cli.C18_clean", "Anonymongo.Cli.C18_modes",
-                  "Anonymongo.Cli.C18_source_exact", "Anonymongo.Cli.C18_model_is_source", "Anonymongo.Cli.C18_source_rules"],
+                  "Anonymongo.Cli.C18_source_exact", "Anonymongo.Cli.C18_model_is_source"],
         extra_modules=["Anonymongo.Props.C18b"],
         corr=[],
         statement="forall 2^13 presence/absence valuations (decided in the kernel): validate accepts iff Spec.wellDefined; a rejection has no effect but stderr+exit 1; an accepted job enters exactly one mode; REGENERATED CHAIN (Props/C18b): tools/extract executes the `if ... os.Exit(1)` chain of main.go's Run closure symbolically over the presence atoms (flag variables, len(args), stdinHasData, the environment fallback of the key pair) on every run -> Generated/CliChain.lean; C18_source_exact decides, for all 2^13 valuations, that what the SOURCE's chain lets through is exactly the rule table's well-defined jobs, and C18_model_is_source that the hand-written transliteration rejects exactly what the source's chain rejects",
